@@ -931,7 +931,10 @@ def r5(ctx):
               "VERSION_RE %r is not exactly 'HTTP/' DIGIT '.' DIGIT on latin-1 text" % getattr(ver, "pattern", ver), "== HTTP/ DIGIT . DIGIT")
     # hex alphabet literal in parse_chunk_size
     f2 = repo.func(BODY + ".ChunkedReader.parse_chunk_size")
-    lits = [const(n) for n in ast.walk(f2.node) if isinstance(n, ast.Constant) and isinstance(n.value, (bytes, str)) and len(n.value) >= 16]
+    # (only a literal that serves as the alphabet of a membership test; what the function accepts is decided by the
+    # evaluated chunk-size table of R3)
+    lits = [const(c) for n in ast.walk(f2.node) if isinstance(n, ast.Compare) and any(isinstance(o, (ast.In, ast.NotIn)) for o in n.ops)
+            for c in n.comparators if isinstance(c, ast.Constant) and isinstance(c.value, (bytes, str)) and len(c.value) >= 16]
     for v in lits:
         cs = frozenset(v if isinstance(v, bytes) else [ord(x) for x in v])
         ctx.check("C01.R5", cs == spec.HEXDIG, "HEXDIG", site(f2, text=repr(v)), "chunk-size alphabet %r differs from HEXDIG" % (v,), "== HEXDIG")
